@@ -119,7 +119,12 @@ func arithmeticFoundations(c *Ctx) {
 		checkExpAll(run, p, exp)
 	}
 	portableWidthRule(c, cfgs[0])
-	run.NotDecided = append(run.NotDecided, "arithmetic foundations: full reduction below L, the amd64/AVX2 assembly (see C04/C05/C06)")
+	// the integer assembly of the default amd64 build (feMul, fePow2k), interpreted from its text
+	if c.Preload("amd64") {
+		run.SetConfig("amd64")
+		elin.CheckMul(run, c.Prog("amd64"), "MUL")
+	}
+	run.NotDecided = append(run.NotDecided, "arithmetic foundations: full reduction below L, the AVX2 vector assembly (see C04/C05/C06)")
 }
 
 // groupFoundations: the exactness rules of the point arithmetic every primitive is built on — the
